@@ -96,7 +96,7 @@ Conc(e, m) ==
     [] e = "DetS1" -> << [e |-> "ADetach", l |-> "L1", closed |-> FALSE], PDet(C1, H(5), FALSE, "") >>
     [] e = "CloseS1" -> << [e |-> "ADetach", l |-> "L1", closed |-> TRUE], PDet(C1, H(5), TRUE, "") >>
     [] e = "DropS1" -> << [e |-> "ADrop", h |-> "l:L1"], PDet(C1, H(5), TRUE, "") >>
-    [] e = "DetS1PClose" -> << [e |-> "ADetach", l |-> "L1", closed |-> FALSE], PDet(C1, H(5), TRUE, "amqp:resource-deleted"),
+    [] e = "DetS1PClose" -> << [e |-> "ADetach", l |-> "L1", closed |-> FALSE], PDet(C1, H(5), TRUE, "x:deleted"),
                                [e |-> "PFrame", perf |-> "attach", ch |-> C1, needs_prev |-> TRUE, f |-> [name |-> "L1", h |-> H(5), role |-> "r", snd |-> 2, rcv |-> 0]],
                                PDet(C1, H(5), TRUE, "") >>
     [] e = "DropReatt1" -> << [e |-> "AAttachS", l |-> "L7", s |-> "s1", drop_first |-> "L1", cfg |-> [snd |-> 2, rcv |-> 0, idc |-> 0]],
